@@ -473,6 +473,49 @@ def conformance_task(task):
     return res
 
 
+
+# ----------------------------------------------------------------------------- activations that differ in their arguments
+def param_activation_part(_):
+    """`activate z "high"` and `activate z` (declared default "low") by two activators are two activations: each instance runs
+    for as long as ITS activator does (and is restarted when it ends), whatever the order in which the activators end"""
+    res = {"param_activation_cases": 0, "violations": []}
+    for first, second in (('"high"', ""), ("", '"high"'), ('"high"', '"low"'), ('$level="high"', ""), ('"low"', "")):
+        for order in (("E1", "E4"), ("E4", "E1"), ("E2", "E1", "E2", "E4")):
+            src = ('flow z $level="low"\n  start ActZAction(level=$level)\n  match E2()\n\n'
+                   f"flow a1\n  activate z {first}\n  match E1()\n\nflow a2\n  activate z {second}\n  match E4()\n\n"
+                   "flow main\n  start a1\n  start a2\n  match Never()\n")
+            val = lambda a: "high" if "high" in a else "low"
+            want_alive = {"a1": val(first), "a2": val(second)}
+            info = {"engine": "C06-param", "source": src, "order": list(order)}
+            try:
+                st = v2x.init_state(src)
+                v2x.step(st, v2x.resolve_event(st, ("start_main",)), [], v2x.UIDS.n)
+                alive = {"a1": True, "a2": True}
+                for k, ev in enumerate(("start",) + order):
+                    if ev != "start":
+                        v2x.step(st, {"type": ev}, [], v2x.UIDS.n)
+                        if ev == "E1":
+                            alive["a1"] = False
+                        if ev == "E4":
+                            alive["a2"] = False
+                    res["param_activation_cases"] += 1
+                    running = sorted(fs.arguments.get("level") for fs in st.flow_id_states.get("z", []) if listening(fs))
+                    want = sorted({want_alive[a] for a in alive if alive[a]})
+                    if running != want:
+                        res["violations"].append((f"activation-with-other-arguments:{first or 'default'}+{second or 'default'}",
+                                                  f"activators alive {alive} after {list(('start',) + order)[:k + 1]}: running instances of z have level {running}, expected {want}", info))
+                        break
+            except Exception as e:
+                res["violations"].append(("activation-with-other-arguments:raised", repr(e), info))
+    seen, uniq = set(), []
+    for v in res["violations"]:
+        if v[0] not in seen:
+            seen.add(v[0])
+            uniq.append(v)
+    res["violations"] = uniq
+    return res
+
+
 def tasks(tier):
     out = []
     d = {"quick": (4, 5, 5, 4), "thorough": (6, 7, 7, 6)}[tier]
@@ -498,6 +541,11 @@ def tasks(tier):
     return out
 
 
+def par_pmap_once(fn):
+    from vf import par
+    return list(par.pmap(fn, [0]))
+
+
 def run(rep, tier):
     from vf.e1run import run_e1
     import vf.props.c06 as me
@@ -510,6 +558,10 @@ def run(rep, tier):
         "activators are known statically (activate statements come first in a flow)",
     ]
     run_e1(rep, me, tier, budget_s=None if tier == "quick" else 1500)
+    for r in par_pmap_once(param_activation_part):
+        rep.set("param_activation_cases", r["param_activation_cases"])
+        for sig, what, info in r["violations"]:
+            rep.violation(sig, what, info)
     # binding of the feed-back emulation to the real event-processing API
     from vf import par
     cts = []
@@ -532,5 +584,10 @@ def run(rep, tier):
 
 
 def replay(rp):
+    if rp.get("engine") == "C06-param":
+        print(rp["source"])
+        for sig, what, _i in param_activation_part(0)["violations"]:
+            print(sig, ":", what)
+        return 0
     from vf.props.c07 import replay as r
     return r(rp)
